@@ -15,6 +15,9 @@
 #include "QXmppMixInvitation.h"
 #include "QXmppOutOfBandUrl.h"
 #include "QXmppPubSubAffiliation.h"
+#include "QXmppPubSubBaseItem.h"
+#include "QXmppPubSubIq_p.h"
+#include "QXmppDataForm.h"
 #include "QXmppResultSet.h"
 #include "QXmppTrustMessageElement.h"
 #include "QXmppTrustMessageKeyOwner.h"
@@ -327,6 +330,7 @@ static bool g_outsideModel = false;
 
 struct ClassEntry {
     std::string name;
+    std::string cxx;           // the C++ toXml definition the entry exercises, when several entries share one (variants of one class)
     bool iqPayload = false;
     bool streamChild = false;
     QString skipRootTag;       // documents whose root element has this name are outside the class's model  // parsed as a child of <stream:stream> (prefix `stream` bound there)
@@ -599,6 +603,36 @@ static std::vector<ClassEntry> classTable()
             });
         t.back().streamChild = true;
     }
+    {
+        // XEP-0060 PubSub IQ: one entry per query type, all exercising PubSubIqBase::parseElementFromChild / toXmlElementFromChild
+        using PS = PubSubIq<QXmppPubSubBaseItem>;
+        auto variant = [&t](const std::string &name, PubSubIqBase::QueryType qt, bool subid) {
+            auto tv = [qt, subid](const PS &o) {
+                // another query type, or a data form (not described by these schemas): outside this schema
+                if (o.queryType() != qt || o.dataForm().has_value()) g_outsideModel = true;
+                Vals f { vS(o.queryJid()), vS(o.queryNode()) };
+                if (subid) f.push_back(vS(o.subscriptionId()));
+                return Vals { vR(f) };
+            };
+            auto fv = [qt, subid](PS &o, const Vals &v) {
+                o.setQueryType(qt);
+                auto &f = v.at(0).items;
+                o.setQueryJid(f.at(0).s); o.setQueryNode(f.at(1).s);
+                if (subid) o.setSubscriptionId(f.at(2).s);
+            };
+            t.push_back(payload<PS>(name, { "query" }, tv, fv));
+            t.back().cxx = "PubSubIqBase";
+        };
+        variant("PubSubIqUnsubscribe", PubSubIqBase::Unsubscribe, true);
+        variant("PubSubIqSubscribe", PubSubIqBase::Subscribe, false);
+        variant("PubSubIqOptions", PubSubIqBase::Options, true);
+        variant("PubSubIqCreate", PubSubIqBase::Create, false);
+        variant("PubSubIqDelete", PubSubIqBase::Delete, false);
+        variant("PubSubIqPurge", PubSubIqBase::Purge, false);
+        variant("PubSubIqConfigure", PubSubIqBase::Configure, false);
+        variant("PubSubIqDefault", PubSubIqBase::Default, false);
+        variant("PubSubIqOwnerDefault", PubSubIqBase::OwnerDefault, false);
+    }
     return t;
 }
 
@@ -622,14 +656,18 @@ static bool runReal(const ClassEntry &c, const QByteArray &xml, QByteArray &out,
 // ---------------------------------------------------------------- driver
 static std::vector<std::string> askDriver(const std::vector<std::string> &ops)
 {
-    QDir().mkpath("/verif/.build/harness");
-    std::string in = "/verif/.build/harness/codec.driver.in", outp = "/verif/.build/harness/codec.driver.out";
+    // the framework runs harnesses with cwd = <verif>/.build (also in scratch copies of /verif): relative paths
+    QDir().mkpath("harness");
+    static const std::string tagp = "harness/codec.driver." + std::to_string(QCoreApplication::applicationPid());
+    std::string in = tagp + ".in", outp = tagp + ".out";
     { std::ofstream f(in); for (auto &o : ops) f << o << "\n"; }
-    std::string cmd = "/verif/lean/.lake/build/bin/qxdriver_c01 < " + in + " > " + outp;
+    std::string drv = QFile::exists("../lean/.lake/build/bin/qxdriver_c01") ? "../lean/.lake/build/bin/qxdriver_c01" : "/verif/lean/.lake/build/bin/qxdriver_c01";
+    std::string cmd = drv + " < " + in + " > " + outp;
     if (system(cmd.c_str()) != 0) { fprintf(stderr, "driver failed\n"); exit(3); }
     std::vector<std::string> res; std::ifstream f(outp); std::string line;
     while (std::getline(f, line)) res.push_back(line);
     if (res.size() != ops.size()) { fprintf(stderr, "driver answered %zu lines for %zu ops\n", res.size(), ops.size()); exit(3); }
+    f.close(); QFile::remove(QString::fromStdString(in)); QFile::remove(QString::fromStdString(outp));
     return res;
 }
 
@@ -796,7 +834,18 @@ int main(int argc, char **argv)
         auto names = splitBlank(askDriver({ "codec-classes" })[0]);
         std::set<std::string> model(names.begin(), names.end()), mine;
         for (auto &c : table) mine.insert(c.name);
-        if (model != mine) { fprintf(stderr, "class tables differ between model and harness\n"); return 3; }
+        if (model != mine) {
+            for (auto &n : model) if (!mine.count(n)) fprintf(stderr, "only in model: %s\n", n.c_str());
+            for (auto &n : mine) if (!model.count(n)) fprintf(stderr, "only in harness: %s\n", n.c_str());
+            fprintf(stderr, "class tables differ between model and harness\n"); return 3;
+        }
+        // development aid only (never set by the framework): restrict the run to some classes
+        QByteArray only = qgetenv("CODEC_ONLY");
+        if (!only.isEmpty()) {
+            std::set<std::string> keep; for (auto &n : only.split(',')) keep.insert(n.toStdString());
+            std::vector<ClassEntry> t2; for (auto &c : table) if (keep.count(c.name)) t2.push_back(c);
+            table = t2;
+        }
     }
     std::vector<std::string> ops;
     for (auto &c : table) ops.push_back("codec-count " + c.name);
@@ -832,7 +881,7 @@ int main(int argc, char **argv)
     std::vector<std::string> fullDoc(table.size());  // the largest generated document of each class: spelling sweep, cross-class feeding
     for (size_t k = 0; k < table.size(); k++) {
         const ClassEntry &c = table[k];
-        stat("classes_modelled");
+        stat("schemas_modelled");
         corr("codec-reset " + c.name, "ok");
         for (unsigned i : indices[k]) {
             const std::string valText = gen[g++], treeText = gen[g++];
@@ -937,7 +986,8 @@ int main(int argc, char **argv)
     // measured: toXml definitions in the library vs classes modelled
     {
         long found = 0;
-        QDir d("/repo/src/base");
+        QByteArray repo = qgetenv("VERIF_REPO"); if (repo.isEmpty()) repo = "/repo";
+        QDir d(QString::fromLocal8Bit(repo) + "/src/base");
         for (auto &f : d.entryList({ "*.cpp" })) {
             QFile file(d.filePath(f));
             if (!file.open(QIODevice::ReadOnly)) continue;
@@ -946,6 +996,8 @@ int main(int argc, char **argv)
             for (int p = 0; (p = src.indexOf("::toXmlElementFromChild(", p)) >= 0; p += 8) found++;
         }
         stat("classes_found_toXml_definitions", found);
+        std::set<std::string> defs; for (auto &c : table) defs.insert(c.cxx.empty() ? c.name : c.cxx);
+        stat("classes_modelled", (long long)defs.size());
     }
     stat("mutation_kinds", M_KINDS);
     finish();
